@@ -21,6 +21,7 @@
 -/
 import GraphiqModel.Proofs.Wire
 import GraphiqModel.Proofs.CommuteTableau
+import GraphiqModel.Proofs.CommuteRecord
 namespace Graphiq.C13
 open Graphiq Graphiq.Wire
 
@@ -313,6 +314,57 @@ theorem gate_only_rewrite_preserves_compiled_tableau (c c' : Circuit) (hgood : c
   have e' := congrArg Subtype.val e
   exact (Commute.runSeq_appTG_val _ _ _ _).symm.trans (e'.trans (Commute.runSeq_appTG_val _ _ _ _))
 
+/-! ## 2e. the classical record
+
+  The classical registers are part of the state in `Commute.appC`: a measuring operation writes its outcome into its
+  classical register.  Two measuring operations on different qubits that write the *same* classical register do not
+  commute (the later write wins) — they are ordered by the classical wire.  `add` threads every operation on the wires of
+  its classical registers; `insert_at` need not, and then the final register values genuinely depend on the order
+  `topological_sort` returns (the quantum state does not: §2b).  Hence the hypothesis `CThreaded`. -/
+
+/-- operations on disjoint quantum registers that do not write the same classical register commute, record included -/
+theorem stabilizer_ops_commute_with_record (ne np : Nat) (a b : SOp) (h : ∀ r, r ∈ Commute.regsC a → r ∉ Commute.regsC b)
+    (s : Commute.CSt ne np) :
+    Commute.appC ne np a (Commute.appC ne np b s) = Commute.appC ne np b (Commute.appC ne np a s) :=
+  Commute.appC_comm ne np a b h s
+
+/-- **stabilizer state and classical record do not depend on the topological order**, for every sane circuit whose
+    measuring operations lie on the classical wire of the register they write -/
+theorem compile_with_record_independent_of_topological_order_stab (ne np : Nat) (c : Circuit) (hgood : c.Good)
+    (hthr : Commute.CThreaded c) (hca : Commute.CArity c) (seq1 seq2 : List Nat)
+    (hl1 : c.isLinearExtension seq1 = true) (hl2 : c.isLinearExtension seq2 = true) (s : Commute.CSt ne np) :
+    runSeq (Commute.appC ne np) (c.sops seq1) s = runSeq (Commute.appC ne np) (c.sops seq2) s :=
+  same_wires_same_state Commute.regsC (Commute.appC ne np) (Commute.appC_comm ne np) (c.sops seq1) (c.sops seq2)
+    (Commute.regsC_ne_nil c hgood seq1) (Commute.regsC_ne_nil c hgood seq2)
+    (Commute.proj_regsC_eq c hgood hthr hca seq1 seq2 hl1 hl2) s
+
+/-- **the classical registers the stabilizer backend ends with do not depend on the topological order**: two runs of the
+    compile loop on the same sane, classically threaded circuit along two linear extensions in which every measuring
+    operation recorded the same outcome end with the same signed stabilizer group *and* the same final register values -/
+theorem compiled_record_independent_of_topological_order (c : Circuit) (hgood : c.Good) (har : Commute.ArityOk c)
+    (hthr : Commute.CThreaded c) (hca : Commute.CArity c)
+    (seq1 seq2 : List Nat) (hl1 : c.isLinearExtension seq1 = true) (hl2 : c.isLinearExtension seq2 = true)
+    (d1 d2 : Det) (script1 script2 : List Bool) (s1 s2 : RunState)
+    (h1 : stabRun c.ne c.np d1 script1 ((c.sops seq1).map Commute.toCOp) = some s1)
+    (h2 : stabRun c.ne c.np d2 script2 ((c.sops seq2).map Commute.toCOp) = some s2)
+    (hout : Commute.feed c.ne c.np (c.sops seq1) s1.outs (fun _ => []) =
+      Commute.feed c.ne c.np (c.sops seq2) s2.outs (fun _ => [])) :
+    (∀ P, TabSpec.Grp s1.t P ↔ TabSpec.Grp s2.t P) ∧ finalRecord c.nc s1.writes = finalRecord c.nc s2.writes := by
+  have r1 := Commute.stabRun_refines_record c hgood har seq1 d1 script1 s1 h1 (fun _ => [])
+  have r2 := Commute.stabRun_refines_record c hgood har seq2 d2 script2 s2 h2 (fun _ => [])
+  have e := compile_with_record_independent_of_topological_order_stab c.ne c.np c hgood hthr hca seq1 seq2 hl1 hl2
+    (Commute.CSt.init c.ne c.np (Commute.feed c.ne c.np (c.sops seq1) s1.outs (fun _ => [])))
+  have e' := congrArg Subtype.val e
+  have e'' := (Commute.runSeq_appC_val _ _ _ _).symm.trans (e'.trans (Commute.runSeq_appC_val _ _ _ _))
+  have e3 : some (TabSpec.gstate s1.t, (fun _ => [] : Commute.Script), Commute.recOf s1.writes) =
+      some (TabSpec.gstate s2.t, (fun _ => [] : Commute.Script), Commute.recOf s2.writes) := by
+    rw [← r1, ← r2, ← hout]; exact e''
+  simp only [Option.some.injEq, Prod.mk.injEq, true_and] at e3
+  refine ⟨fun P => ?_, ?_⟩
+  · show (TabSpec.gstate s1.t).G P ↔ (TabSpec.gstate s2.t).G P
+    rw [e3.1]
+  · rw [Commute.finalRecord_eq, Commute.finalRecord_eq, e3.2]
+
 /-! ## 3. library calls do not mutate their inputs -/
 
 /-- the full statement, over a semantics of the Python heap that this development does not model: `exec h call` is
@@ -471,5 +523,19 @@ example : stabRun 1 2 .zero [] ((exG.sops [1, 2, 3, 4]).map Commute.toCOp) =
     (stabRun 1 2 .zero [] ((exG.sops [1, 2, 3, 4]).map Commute.toCOp)).isSome = true :=
   ⟨gate_only_compile_independent_of_topological_order exG exG_good exG_arity exG_gates [1, 2, 3, 4] [3, 1, 2, 4]
     (by decide) (by decide) .zero [], by decide +kernel⟩
+
+/-- `exD` was built by `add`: its measurement lies on the classical wire it writes; the record theorem applies to its two
+    orders (hypotheses `CThreaded`, `CArity`) -/
+example : Commute.CThreaded exD ∧ Commute.CArity exD :=
+  ⟨Commute.cThreaded_of_check exD exD_good.1 (by decide), Commute.cArity_of_check exD exD_good.1 (by decide)⟩
+
+/-- without threading the record *does* depend on the order: `MeasurementZ p0 → c0` and `MeasurementZ p1 → c0` with the second
+    one `insert_at`ed on its quantum wire only are unordered, and the two compile sequences leave different values in `c0`
+    when the outcomes differ (forced outcome 0 for `|0⟩`, and `X p1` before the second measurement makes its outcome 1) -/
+example :
+    let ops1 : List COp := [.gate1 .X ⟨.p, 1⟩, .measz ⟨.p, 0⟩ 0, .measz ⟨.p, 1⟩ 0]
+    let ops2 : List COp := [.gate1 .X ⟨.p, 1⟩, .measz ⟨.p, 1⟩ 0, .measz ⟨.p, 0⟩ 0]
+    (stabRun 0 2 .zero [] ops1).map (fun s => finalRecord 1 s.writes) = some [true] ∧
+    (stabRun 0 2 .zero [] ops2).map (fun s => finalRecord 1 s.writes) = some [false] := by decide +kernel
 
 end Graphiq.C13
